@@ -144,6 +144,22 @@ STRENGTHENED = {
     "sem-lock-capacity-threshold": "first run missed (only the mutex group had commutation lemmas); C39 now has semaphore LOCK/UNLOCK commutation harnesses on the real SemaphoreImpl code",
     "recv-eager-threshold-inclusive": "first run missed (Request::start was not a unit); C28 now has the mailbox-choice contract of Request::start",
     "destroy-skips-flush-same-date": "first run missed (Container::~Container was not a unit); C47 now has the destructor's flush-before-signal contract",
+    "rank-negative-multiple-wrap": "first run missed (the wrapped-value clause of Cart_rank is undecided for 4 dimensions and not claimed); C33 now has a lemma on the real body of rank for 1- and 2-dimensional topologies",
+    "s4u-fast-path-last-arriver": "first run missed (s4u::Barrier::wait was not a unit); C07 now has the contract of Barrier::wait over a model of the simcall layer (exact event sequence)",
+    "irecv-skips-lookup-behind-filtered-recv": "first run missed (the receive side was not under contract); C08 now has the contract of CommImpl::irecv (oldest acceptable send, else queued at the tail)",
+    "expand-wakes-only-one-constraint": "first run missed (System::expand was not a unit; an earlier 'caught' was a failure of the unpatched tree that the repair 1117e72944 removed); C18 now has the contract of System::expand",
+    "reused-element-counter-drift": "first run missed (System::expand was not a unit); C18 now has the contract of System::expand",
+    "waitany-count-mismatch": "first run missed (the WAITANY/TESTANY round trips were never listed: symex did not finish); C43 now has contracts on ActivityWaitanySimcall/ActivityTestanySimcall::serialize (records written == count packed)",
+    "receiver-framed-with-sender-offset": "first run missed (smpi_comm_copy_buffer_callback was not a unit); C35 now has its byte-level contract",
+    "racing-check-only-last-kept": "first run missed (needs 4 actors; the execution harnesses explore 3 events / 2 actors); C42 now checks get_racing_events_of against an arbitrary happens-before relation over 5 events / 4 actors",
+    "topological-order-ignores-outside-causes": "first run missed (EventSet::get_topological_ordering was not a unit); C44 now has its contract over every acyclic cause relation on 3 (quick) / 4 events",
+    "history-iterator-keeps-visited-maximal": "first run missed (History::Iterator was not a unit); C44 now has the inductive step of Iterator::increment and the full traversal",
+}
+SUPERSEDED = {
+    "hindexed-serialize-skips-empty-block": ("hindexed-serialize-stops-at-empty-block",
+        "written against the Type_Hindexed::serialize loop that commit e030d1a091 repaired: the patch no longer applies and its `continue` "
+        "would be harmless in the repaired loop; on the tree it was written for (0fedb59f7c) the new serialize contract catches it "
+        "(label hindexed_serialize_first_copy_takes_each_block_at_its_displacement, run by hand); re-based as the named change"),
 }
 for mj in glob.glob(os.path.join(ROOT, "seeded", "*", "*", "meta.json")):
     m = json.load(open(mj))
@@ -152,6 +168,8 @@ for mj in glob.glob(os.path.join(ROOT, "seeded", "*", "*", "meta.json")):
         m["needs"] = NEEDS[n]
     if n in STATION and (m.get("pinned_tests_with_patch") in ("skipped", None) or n in ("real-interpolation-rewritten",)):
         m["pinned_tests_with_patch"] = STATION[n]
+    if n in SUPERSEDED:
+        m["superseded_by"], m["superseded_note"] = SUPERSEDED[n]
     if n in STRENGTHENED:
         m["first_result"] = STRENGTHENED[n]
         if m.get("vf_check_exit") == 1:
